@@ -130,11 +130,25 @@ def build_props(mod):
 # ------------------------------------------------------------------ implementation runs
 def _run_one(args):
     modname, case = args
+    import signal
     mod = importlib.import_module(modname)
+    def _alarm(signum, frame):
+        raise TimeoutError("run_impl exceeded CASE_TIMEOUT (a changed loop may not terminate)")
+    old = None
     try:
+        try:
+            old = signal.signal(signal.SIGALRM, _alarm); signal.alarm(int(getattr(mod, "CASE_TIMEOUT", 180)))
+        except ValueError:
+            old = None                                             # not in the main thread
         return mod.run_impl(case)
     except BaseException as e:                                     # implementation raised: an observable too
         return {"exc": type(e).__name__, "msg": str(e)[:300], "tb": traceback.format_exc()[-1500:]}
+    finally:
+        try:
+            signal.alarm(0)
+            if old is not None: signal.signal(signal.SIGALRM, old)
+        except ValueError:
+            pass
 
 def run_all(mod, cases):
     import multiprocessing as mp
